@@ -233,6 +233,36 @@ func intrinsicKinds(v ssa.Value) map[int64]bool {
 		return kindSet("Func")
 	case "(reflect.Value).Index", "(reflect.Value).Field", "(reflect.Value).FieldByIndex", "reflect.Zero", "(reflect.Value).Convert", "(reflect.Value).Slice":
 		return allValidKinds
+	default:
+		// a helper of the package: the kinds of everything it can return
+		if f.Pkg != nil && f.Pkg.Pkg.Path() == twigPath && len(f.Blocks) > 0 && !inKindSummary[f] && (isReflectValue(c.Type()) || isReflectType(c.Type())) {
+			inKindSummary[f] = true
+			defer delete(inKindSummary, f)
+			union := map[int64]bool{}
+			ok := true
+			instrsOf(f, func(in ssa.Instruction) {
+				ret, isRet := in.(*ssa.Return)
+				if !isRet || !ok {
+					return
+				}
+				res := retResults(ret)
+				if len(res) != 1 {
+					ok = false
+					return
+				}
+				k, z := intrinsicKindsMulti(res[0], map[ssa.Value]bool{})
+				if k == nil || z {
+					ok = false
+					return
+				}
+				for kk := range k {
+					union[kk] = true
+				}
+			})
+			if ok && len(union) > 0 {
+				return union
+			}
+		}
 	case "reflect.ValueOf":
 		// ValueOf(x) with x of a concrete static type is valid and of that kind
 		arg := c.Call.Args[0]
@@ -251,6 +281,8 @@ func intrinsicKinds(v ssa.Value) map[int64]bool {
 	}
 	return nil
 }
+
+var inKindSummary = map[*ssa.Function]bool{}
 
 type reflectSite struct {
 	in     ssa.Instruction
@@ -316,6 +348,9 @@ func checkReflect(w *World, r *Report) {
 			why := reflectGuarded(fn, s)
 			if why == "" {
 				why = guardedInParent(fn, s)
+			}
+			if why == "" {
+				why = guardedInCallers(w, fn, s, 0)
 			}
 			if why != "" {
 				r.ok("R05.2", ssaName(fn), construct, pos, why, true)
@@ -825,6 +860,83 @@ func guardedInParent(fn *ssa.Function, s reflectSite) string {
 		}
 	})
 	return out
+}
+
+// guardedInCallers: the receiver is (derived from) a parameter of an unexported helper: the
+// precondition may be established by every caller before the call (a function split in two).
+func guardedInCallers(w *World, fn *ssa.Function, s reflectSite, depth int) string {
+	if depth > 2 || fn.Object() == nil || fn.Object().Exported() && fn.Signature.Recv() == nil {
+		return ""
+	}
+	recv := unspill(s.recv)
+	viaValueOf := false
+	viaType := false
+	var p *ssa.Parameter
+	switch x := recv.(type) {
+	case *ssa.Parameter:
+		p = x
+	case *ssa.Call:
+		if f := x.Call.StaticCallee(); f != nil && f.String() == "reflect.ValueOf" && len(s.legal) == len(allValidKinds) && !s.onType {
+			if pp, ok := unspill(x.Call.Args[0]).(*ssa.Parameter); ok {
+				p, viaValueOf = pp, true
+			}
+		}
+		if s.onType {
+			if v, ok := typeOfValue(recv); ok {
+				if pp, ok := unspill(v).(*ssa.Parameter); ok {
+					p, viaType = pp, true
+				}
+			}
+		}
+	}
+	if p == nil {
+		return ""
+	}
+	idx := -1
+	for i, fp := range fn.Params {
+		if fp == p {
+			idx = i
+		}
+	}
+	node := w.callgraph().Nodes[fn]
+	if idx < 0 || node == nil {
+		return ""
+	}
+	n := 0
+	for _, e := range node.In {
+		if e.Site == nil || e.Caller.Func.Package() != fn.Package() {
+			return ""
+		}
+		cc := e.Site.Common()
+		if cc.IsInvoke() || idx >= len(cc.Args) || cc.StaticCallee() != fn {
+			return ""
+		}
+		arg := cc.Args[idx]
+		caller := e.Caller.Func
+		n++
+		switch {
+		case viaValueOf:
+			ps := reflectSite{in: e.Site, recv: arg, method: s.method, legal: allValidKinds}
+			if reflectGuardedFlow(caller, ps, nil, arg) == "" && !dominatedByNonNilAssert(arg, e.Site) {
+				return ""
+			}
+		case viaType:
+			// the type of the parameter Value: a kind test of the argument Value in the caller
+			ps := reflectSite{in: e.Site, recv: arg, method: s.method, legal: s.legal, onType: false}
+			if reflectGuarded(caller, ps) == "" && guardedInParent(caller, ps) == "" && guardedInCallers(w, caller, ps, depth+1) == "" {
+				return ""
+			}
+		default:
+			ps := reflectSite{in: e.Site, recv: arg, method: s.method, legal: s.legal, onType: s.onType}
+			if reflectGuarded(caller, ps) == "" && guardedInParent(caller, ps) == "" && guardedInCallers(w, caller, ps, depth+1) == "" {
+				return ""
+			}
+		}
+	}
+	if n == 0 {
+		return ""
+	}
+	return fmt.Sprintf("parameter of a helper: the precondition is established before the call at each of its %d call site(s)", n)
 }
 
 // containerTypeOriginL: like containerTypeOrigin, but also reports at which "level" below the
